@@ -315,7 +315,7 @@ pub fn run(ctx: &Ctx) -> Report {
          non-trivial = >=2 parameters not in sorted order, or an encoded / non-ASCII / '+' / space / quote character, or a marketing parameter; distinct by case hash",
     );
     rep.assume("URL characters are those the http crate accepts in a path-and-query after sanitising (no back-tick, backslash, braces, '#'); no encoded delimiters (%26, %3D, %23) inside keys or values; rule sources do not mention ignored marketing keys; mutations and case swaps leave percent escapes alone");
-    rep.add(run_part(ctx, "urls", ctx.cases(60_000, 1_500_000), strategy, check, &[]));
+    rep.add(run_part(ctx, "urls", ctx.cases(1_000_000, 40_000_000), strategy, check, &[]));
     rep
 }
 
